@@ -22,4 +22,17 @@ def pluginPost (s : State) : State := Gen.LeakCode.postSteps.foldl pluginDetStep
 /-- the plugin's constructor: `memLeakDetector_->enable()` -/
 def pluginCreate (s : State) : State := enable s
 
+/-- the periods of C07's syntax are the detector's -/
+def ofPluginPeriod : LeakPlugin.Period → Gen.LeakDetector.Period
+  | .all => .all
+  | .disabled => .disabled
+  | .enabled => .enabled
+  | .checking => .checking
+
+/-- `FinalReport(toBeDeletedLeaks)`: `none` for the empty string, else the period whose report is returned —
+    counted period and reported period as regenerated from the source -/
+def pluginFinal (s : State) (toBeDeleted : Nat) : Option Gen.LeakDetector.Period :=
+  if totalMemoryLeaks s (ofPluginPeriod Gen.LeakCode.finalCountPeriod) != toBeDeleted
+  then some (ofPluginPeriod Gen.LeakCode.finalReportPeriod) else none
+
 end LeakDetector
